@@ -422,6 +422,77 @@ fn fault_run(k: i128, persistent: bool, mode: &str, cmds: &[Sx]) -> Sx {
     Sx::L(vec![Sx::L(results), close, Sx::I(hit as i128), Sx::I(writes as i128), snap])
 }
 
+/// C09: save the package, damage `n` bytes of the saved FILE (below the stream level: header, FAT, directory, data),
+/// open the result and use every read operation and one mutation + flush.  -> ok | err | panic (never anything else)
+fn mutate_open(st: &mut State, seed: u64, n: u64, mode: u64) -> Sx {
+    use std::panic::{catch_unwind, AssertUnwindSafe};
+    let bytes = match &st.medium {
+        Some(m) => m.snapshot(),
+        None => return Sx::sym("nopkg"),
+    };
+    if bytes.is_empty() {
+        return Sx::sym("nopkg");
+    }
+    let mut x = seed.wrapping_mul(0x9E3779B97F4A7C15) | 1;
+    let mut next = move || {
+        x ^= x << 13;
+        x ^= x >> 7;
+        x ^= x << 17;
+        x
+    };
+    let mut b = bytes.clone();
+    for _ in 0..n {
+        let r = next();
+        // mode 0: anywhere; 1: the first 512-byte header; 2: truncate; 3: zero a 64-byte run
+        match mode {
+            1 => {
+                let i = (r % 512.min(b.len() as u64)) as usize;
+                b[i] = (next() & 0xff) as u8;
+            }
+            2 => {
+                let keep = (r % (b.len() as u64 + 1)) as usize;
+                b.truncate(keep.max(1));
+            }
+            3 => {
+                let i = (r % b.len() as u64) as usize;
+                for j in i..(i + 64).min(b.len()) {
+                    b[j] = 0;
+                }
+            }
+            _ => {
+                let i = (r % b.len() as u64) as usize;
+                b[i] = (next() & 0xff) as u8;
+            }
+        }
+    }
+    let r = catch_unwind(AssertUnwindSafe(|| {
+        let mut p = match Package::open(Medium::new(b)) {
+            Ok(p) => p,
+            Err(_) => return "err",
+        };
+        let _ = sorted_tables(&p);
+        let _ = all_rows_sx(&mut p);
+        let _ = stream_data_sx(&mut p);
+        let _ = summary_sx(&p);
+        let names: Vec<String> = p.tables().map(|t| t.name().to_string()).collect();
+        for n in names.iter() {
+            let _ = p.delete_rows(Delete::from(n.clone()).with(msi::Expr::boolean(false)));
+        }
+        if let Some(n) = names.iter().find(|n| !n.starts_with('_')) {
+            let _ = p.delete_rows(Delete::from(n.clone()));
+            let _ = p.drop_table(n);
+        }
+        let _ = p.create_table("Zz9", vec![msi::Column::build("K").primary_key().int16()]);
+        p.summary_info_mut().set_author("a".to_string());
+        let _ = p.flush();
+        "ok"
+    }));
+    match r {
+        Ok(s) => Sx::sym(s),
+        Err(_) => Sx::panic(),
+    }
+}
+
 /// C11: save the package, add the two digital-signature streams with the cfb crate only, open the result
 fn add_signature(st: &mut State) -> Sx {
     let p = st.pkg.take().expect("harness: no package");
@@ -444,6 +515,7 @@ fn add_signature(st: &mut State) -> Sx {
 pub fn pkg_cmd(st: &mut State, name: &str, args: &[Sx]) -> Option<Sx> {
     match (name, args) {
         ("x_fault_run", [k, persistent, mode, cmds]) => Some(fault_run(k.as_int(), persistent.as_bool(), mode.as_sym(), cmds.as_list())),
+        ("x_mutate_open", [seed, n, mode]) => Some(mutate_open(st, seed.as_int() as u64, n.as_int() as u64, mode.as_int() as u64)),
         ("add_signature", []) => {
             if st.pkg.is_none() {
                 return Some(Sx::sym("nopkg"));
